@@ -45,6 +45,9 @@ type Case struct {
 	// ServerConfigForCommand for the command the client names; the authenticator's base policy is
 	// OPTIONAL/OPTIONAL. "REQUIRED means required" for the policy that applies to the command.
 	PerCmd bool `json:"per_command,omitempty"`
+	// Explicit (client role, resumed): the session is named through SecurityConfig.SessionID instead of
+	// being found by (address, command)
+	Explicit bool `json:"explicit,omitempty"`
 }
 
 var levels = []security.SecurityLevel{security.SecurityRequired, security.SecurityPreferred, security.SecurityOptional, security.SecurityNever}
@@ -211,7 +214,10 @@ func run(c Case) observed {
 	if c.Role == "client" {
 		endpointConn, peerConn = cc, sc
 		if c.Resumed != "" {
-			plantClientSession(cfg, c.Resumed)
+			sid := plantClientSession(cfg, c.Resumed)
+			if c.Explicit {
+				cfg.SessionID = sid
+			}
 			o.ResumeKey = planted
 			switch c.Peer {
 			case "reply-denied":
@@ -416,6 +422,8 @@ func allCases() []Case {
 							out = append(out, Case{Role: role, Auth: auth, Enc: enc, Integrity: integ, Methods: []string{"CLAIMTOBE"}, Peer: p, Resumed: res})
 							if role == "server" {
 								out = append(out, Case{Role: role, Auth: auth, Enc: enc, Integrity: integ, Methods: []string{"CLAIMTOBE"}, Peer: p, Resumed: res, PerCmd: true})
+							} else {
+								out = append(out, Case{Role: role, Auth: auth, Enc: enc, Integrity: integ, Methods: []string{"CLAIMTOBE"}, Peer: p, Resumed: res, Explicit: true})
 							}
 						}
 					}
@@ -469,7 +477,7 @@ func TestC03Catalogue(t *testing.T) {
 			}
 			if v != "" {
 				mu.Lock()
-				sig := fmt.Sprintf("%s/%s/%s/%v", c.Role, c.Peer, c.Resumed, c.PerCmd)
+				sig := fmt.Sprintf("%s/%s/%s/%v/%v", c.Role, c.Peer, c.Resumed, c.PerCmd, c.Explicit)
 				if bad[sig] < 1 {
 					kit.Violation("C03", v, c)
 					t.Errorf("C03 violated: %s\n  case %+v\n  peer steps: %v", v, c, ob.plog.Steps)
@@ -480,7 +488,7 @@ func TestC03Catalogue(t *testing.T) {
 		}(c)
 	}
 	wg.Wait()
-	ev.Exhaustive(fmt.Sprintf("the whole catalogue product: %d cases (2 roles x 16 policies (+4 integrity-REQUIRED) x 5 method lists x %d/%d peer kinds, plus 4 cached-session kinds x %d resumption peers; the server role additionally with its policy handed out per command through ServerConfigForCommand over an OPTIONAL base policy)",
+	ev.Exhaustive(fmt.Sprintf("the whole catalogue product: %d cases (2 roles x 16 policies (+4 integrity-REQUIRED) x 5 method lists x %d/%d peer kinds, plus 4 cached-session kinds x %d resumption peers; the server role additionally with its policy handed out per command through ServerConfigForCommand over an OPTIONAL base policy, the client role additionally naming the cached session explicitly through SessionID)",
 		len(cases), len(serverPeers), len(clientPeers), len(resumePeers)))
 }
 
